@@ -800,6 +800,212 @@ func ruleOp2Table(p *Prog, r *Result) {
 		}
 		r.add(okAll, "prev", p.InstrPos(prev), "on every way back to the loop header the previous-character variable is the character just scanned (no iteration skips the update); after an operator consumed by look-ahead it is a constant that no arm tests")
 	}
+	// every character that is not a blank, a quote or part of a word becomes (part of) a token: for each character
+	// constant the scanner distinguishes, outside a literal, every way round the loop builds a token - except for the
+	// first character of a two-character operator directly followed by its second character
+	{
+		var strFlag *ssa.Phi
+		for _, in := range L.Header.Instrs {
+			if ph, ok := in.(*ssa.Phi); ok {
+				if bt, isB := ph.Type().Underlying().(*types.Basic); isB && bt.Kind() == types.Bool {
+					strFlag = ph
+				}
+			}
+		}
+		chars := map[int64]bool{}
+		allInstrs(fn, func(in ssa.Instruction) {
+			if bo, ok := in.(*ssa.BinOp); ok && bo.Op == token.EQL && bo.X == char {
+				if c, ok := constInt(bo.Y); ok {
+					chars[c] = true
+				}
+			}
+		})
+		isBlank := func(c int64) bool {
+			return c == ' ' || c == '\t' || c == '\n' || c == '\v' || c == '\f' || c == '\r'
+		}
+		// the scanner and the word classifier agree on what a blank is: buildToken trims blanks off a word without
+		// moving its offset, so every character strings.TrimSpace removes must end a word in the scanner
+		if bt := p.Func("buildToken"); bt != nil {
+			trims := false
+			allInstrs(bt, func(in ssa.Instruction) {
+				if c, ok := in.(*ssa.Call); ok && p.calleeName(&c.Call) == "strings.TrimSpace" {
+					trims = true
+				}
+			})
+			if trims {
+				var missing []string
+				for _, b := range []int64{' ', '\t', '\n', '\v', '\f', '\r'} {
+					if !chars[b] {
+						missing = append(missing, fmt.Sprintf("%q", rune(b)))
+					}
+				}
+				r.add(len(missing) == 0, "blanks", p.Pos(fn.Pos()), fmt.Sprintf("every blank that buildToken trims off a word is a word separator of the scanner (not separators: %v): a blank counted into a word leaves the word's offset on the blank", missing))
+			}
+		}
+		var cs []int64
+		for c := range chars {
+			if !isBlank(c) && c != '\'' && c != '"' && c != '`' {
+				cs = append(cs, c)
+			}
+		}
+		sort.Slice(cs, func(i, j int) bool { return cs[i] < cs[j] })
+		for _, c := range cs {
+			for _, nextEq := range []bool{true, false} {
+				// does some way round the loop build no token?
+				silent := false
+				// facts about merged locals along the way taken: 0 false, 1 true, 2 nil, 3 not nil
+				type envT map[ssa.Value]int8
+				valOf := func(env envT, v ssa.Value) (int8, bool) {
+					if bv, ok := constBool(v); ok {
+						if bv {
+							return 1, true
+						}
+						return 0, true
+					}
+					if isNilConst(v) {
+						return 2, true
+					}
+					if _, ok := v.(*ssa.Alloc); ok {
+						return 3, true
+					}
+					if bo, ok := v.(*ssa.BinOp); ok && (bo.Op == token.EQL || bo.Op == token.NEQ) && bo.X == char {
+						if k, isC := constInt(bo.Y); isC {
+							if (k == c) == (bo.Op == token.EQL) {
+								return 1, true
+							}
+							return 0, true
+						}
+					}
+					x, ok := env[v]
+					return x, ok
+				}
+				npaths := 0
+				var walk func(b, from *ssa.BasicBlock, seen bool, env envT)
+				walk = func(b, from *ssa.BasicBlock, seen bool, env envT) {
+					npaths++
+					if npaths > 20000 {
+						silent = true
+						return
+					}
+					if from != nil {
+						ne := envT{}
+						for k, v := range env {
+							ne[k] = v
+						}
+						for _, in := range b.Instrs {
+							ph, ok := in.(*ssa.Phi)
+							if !ok {
+								break
+							}
+							for i, pr := range b.Preds {
+								if pr == from {
+									if x, ok := valOf(env, ph.Edges[i]); ok {
+										ne[ph] = x
+									} else {
+										delete(ne, ph)
+									}
+								}
+							}
+						}
+						env = ne
+					}
+					for _, in := range b.Instrs {
+						if al, ok := in.(*ssa.Alloc); ok && typeName(deref(al.Type())) == "Token" {
+							seen = true
+						}
+					}
+					take := func(sc *ssa.BasicBlock) {
+						if sc == L.Header {
+							if !seen {
+								silent = true
+							}
+							return
+						}
+						if !L.Body[sc] {
+							return
+						}
+						walk(sc, b, seen, env)
+					}
+					f := ifOf(b)
+					if f == nil {
+						for _, sc := range b.Succs {
+							take(sc)
+						}
+						return
+					}
+					a, ok := condAtom(f.Cond, true)
+					decided := -1
+					if ok && (a.Op == token.EQL || a.Op == token.NEQ) {
+						if k, isC := constInt(a.Y); isC {
+							switch {
+							case a.X == char:
+								if (k == c) == (a.Op == token.EQL) {
+									decided = 0
+								} else {
+									decided = 1
+								}
+							case isNextChar(p, a.X, idx):
+								if k == '=' {
+									if nextEq == (a.Op == token.EQL) {
+										decided = 0
+									} else {
+										decided = 1
+									}
+								}
+							}
+						}
+						if bv, isB := constBool(a.Y); isB {
+							if strFlag != nil && a.X == ssa.Value(strFlag) {
+								// outside a literal
+								if ((a.Op == token.EQL) == bv) == false {
+									decided = 0
+								} else {
+									decided = 1
+								}
+							} else if x, known := valOf(env, a.X); known && x <= 1 {
+								if ((x == 1) == bv) == (a.Op == token.EQL) {
+									decided = 0
+								} else {
+									decided = 1
+								}
+							}
+						}
+						if isNilConst(a.Y) {
+							if x, known := valOf(env, a.X); known && x >= 2 {
+								if (x == 2) == (a.Op == token.EQL) {
+									decided = 0
+								} else {
+									decided = 1
+								}
+							}
+						}
+					}
+					switch decided {
+					case 0:
+						take(b.Succs[0])
+					case 1:
+						take(b.Succs[1])
+					default:
+						take(b.Succs[0])
+						take(b.Succs[1])
+					}
+				}
+				walk(L.Header, nil, false, envT{})
+				_, twoChar := s2o[string(rune(c))+"="]
+				exempt := nextEq && twoChar
+				if c == '=' {
+					// `=` closes a two-character operator or stands alone: its own arm is decided by the previous character
+					exempt = false
+				}
+				key := fmt.Sprintf("emit|%q|next=%v", rune(c), map[bool]string{true: "'='", false: "other"}[nextEq])
+				if exempt {
+					r.ok(key, p.Pos(fn.Pos()), "first character of a two-character operator: the token is built when the `=` is scanned")
+					continue
+				}
+				r.add(!silent, key, p.Pos(fn.Pos()), fmt.Sprintf("outside a literal the character %q builds a token on every way round the loop (a character that is silently dropped changes the statement: `key *= 'a'` read as `key = 'a'`)", rune(c)))
+			}
+		}
+	}
 	// the lexer scans the caller's text unchanged
 	for _, nm := range []string{"NewLexer", "NewParser", "NewOptimizer"} {
 		f := p.Func(nm)
